@@ -39,7 +39,7 @@ VARIABLES
   nt,        \* texts handed to Send so far
   nsend,     \* party -> user sends after the prelude
   pc,        \* position in the prelude
-  hiA,       \* TRUE: A's DH-Commit hashes compare higher than B's (fixed per behaviour)
+  order,     \* set of <<x, y>>: the hash of commitment x compares higher than that of y (decided on first use)
   used,      \* party -> receiving MAC keys that verified an accepted message
   disclosedEver, \* party -> MAC keys disclosed in emitted messages
   leaks,     \* number of user texts emitted in clear although encryption was due
@@ -55,8 +55,8 @@ VARIABLES
   evlog,     \* party -> sequence of security events
   path       \* schedule (history, not part of the fingerprint)
 
-vars == <<st, net, nx, nt, nsend, pc, hiA, phase, budget, delivered, accepted, rejects, evlog, used, disclosedEver, leaks, txlog, nrun, smplog, ksess, path>>
-view == <<st, net, nx, nt, nsend, pc, hiA, phase, budget, delivered, accepted, rejects, evlog, used, disclosedEver, leaks, txlog, nrun, smplog, ksess>>
+vars == <<st, net, nx, nt, nsend, pc, order, phase, budget, delivered, accepted, rejects, evlog, used, disclosedEver, leaks, txlog, nrun, smplog, ksess, path>>
+view == <<st, net, nx, nt, nsend, pc, order, phase, budget, delivered, accepted, rejects, evlog, used, disclosedEver, leaks, txlog, nrun, smplog, ksess>>
 
 FreshId(p) == Base(p) + nx[p] + 1
 Uses(s, id) == s.ax = id \/ s.cur = id
@@ -75,7 +75,7 @@ Init ==
   /\ nt = 0
   /\ nsend = [p \in Parties |-> 0]
   /\ pc = 1
-  /\ hiA \in BOOLEAN
+  /\ order = {}
   /\ used = [p \in Parties |-> {}]
   /\ disclosedEver = [p \in Parties |-> {}]
   /\ leaks = 0
@@ -109,9 +109,14 @@ Effect(p, r, step, own) ==
 Unflagged(r) == ~\E i \in DOMAIN r.evs : r.evs[i] = "msg:ReceivedMessageUnencrypted"
 
 DeliverMsg(p, m, own, idx, label) ==
-  \E hi \in (IF m.t = "DHC" /\ st[p].auth = "awDHKey" THEN {hiA = (p = "A")} ELSE {FALSE}) :
+  \E hi \in (IF m.t = "DHC" /\ st[p].auth = "awDHKey"
+              THEN (IF <<st[p].ax, m.hash>> \in order THEN {TRUE}
+                    ELSE IF <<m.hash, st[p].ax>> \in order \/ m.hash = st[p].ax THEN {FALSE} ELSE BOOLEAN)
+              ELSE {FALSE}) :
     LET r == ReceiveFrags(st[p], m, 1, FreshId(p), hi)
     IN /\ Effect(p, r, [a |-> label, p |-> p, i |-> idx, hi |-> hi], own)
+       /\ order' = IF m.t = "DHC" /\ st[p].auth = "awDHKey" /\ m.hash # st[p].ax
+                   THEN order \cup {IF hi THEN <<st[p].ax, m.hash>> ELSE <<m.hash, st[p].ax>>} ELSE order
        /\ used' = [used EXCEPT ![p] = IF m.t = "D" /\ st[p].ms = "enc" /\ ~r.err /\ m.mac[1] # 0
                                          /\ <<m.rkid, m.skid, m.mac[1], m.mac[2]>> \in r.s.macs \cup st[p].macs
                                          /\ (r.plain # NoText \/ \E i \in DOMAIN r.evs : r.evs[i] = "msg:LogHeartbeatReceived")
@@ -139,33 +144,33 @@ UserSend(p) ==
         /\ nt' = nt + 1
         /\ nsend' = [nsend EXCEPT ![p] = @ + 1]
         /\ accepted' = [accepted EXCEPT ![p] = IF st[p].ms = "enc" /\ ~r.err THEN Append(@, nt + 1) ELSE @]
-  /\ UNCHANGED <<phase, pc, budget, delivered, rejects, used, nrun, smplog>>
+  /\ UNCHANGED <<phase, pc, budget, delivered, rejects, used, nrun, smplog, order>>
 
 UserQuery(p) ==
   /\ phase = "free" /\ budget.query > 0 /\ OTREnabled(st[p])
   /\ Effect(p, Query(st[p]), [a |-> "Query", p |-> p], net[p])
   /\ budget' = [budget EXCEPT !.query = @ - 1]
-  /\ UNCHANGED <<phase, pc, nt, nsend, delivered, accepted, rejects, used, nrun, smplog>>
+  /\ UNCHANGED <<phase, pc, nt, nsend, delivered, accepted, rejects, used, nrun, smplog, order>>
 
 UserEnd(p) ==
   /\ phase = "free" /\ budget.end > 0
   /\ Effect(p, End(st[p]), [a |-> "End", p |-> p], net[p])
   /\ budget' = [budget EXCEPT !.end = @ - 1]
-  /\ UNCHANGED <<phase, pc, nt, nsend, delivered, accepted, rejects, used, nrun, smplog>>
+  /\ UNCHANGED <<phase, pc, nt, nsend, delivered, accepted, rejects, used, nrun, smplog, order>>
 
 UserTick(p) ==
   /\ phase = "free" /\ budget.tick > 0
   /\ ~(st[p].hb /\ ~st[p].rstep /\ ~st[p].renc)
   /\ Effect(p, Tick(st[p]), [a |-> "Tick", p |-> p], net[p])
   /\ budget' = [budget EXCEPT !.tick = @ - 1]
-  /\ UNCHANGED <<phase, pc, nt, nsend, delivered, accepted, rejects, used, nrun, smplog>>
+  /\ UNCHANGED <<phase, pc, nt, nsend, delivered, accepted, rejects, used, nrun, smplog, order>>
 
 UserExtra(p) ==
   /\ phase = "free" /\ budget.extra > 0 /\ st[p].ms = "enc"
   /\ Len(net[Other(p)]) < MaxFlight
   /\ Effect(p, ExtraKey(st[p]), [a |-> "ExtraKey", p |-> p], net[p])
   /\ budget' = [budget EXCEPT !.extra = @ - 1]
-  /\ UNCHANGED <<phase, pc, nt, nsend, delivered, accepted, rejects, used, nrun, smplog>>
+  /\ UNCHANGED <<phase, pc, nt, nsend, delivered, accepted, rejects, used, nrun, smplog, order>>
 
 \* The prelude: a fixed sequence of user steps (the start pattern of a scenario),
 \* optionally followed by alternating deliveries until the network is quiet.
@@ -176,27 +181,27 @@ PreludeStep ==
            p == s.p
        IN /\ pc' = pc + 1
           /\ CASE s.a = "Query" -> /\ Effect(p, Query(st[p]), [a |-> "Query", p |-> p], net[p])
-                                     /\ UNCHANGED <<phase, budget, nt, nsend, delivered, accepted, rejects, used, nrun, smplog>>
+                                     /\ UNCHANGED <<phase, budget, nt, nsend, delivered, accepted, rejects, used, nrun, smplog, order>>
                [] s.a = "Send" -> LET r == Send(st[p], nt + 1)
                                   IN /\ Effect(p, r, [a |-> "Send", p |-> p, t |-> nt + 1], net[p])
                                      /\ nt' = nt + 1
                                      /\ accepted' = [accepted EXCEPT ![p] = IF st[p].ms = "enc" /\ ~r.err THEN Append(@, nt + 1) ELSE @]
-                                     /\ UNCHANGED <<phase, budget, nsend, delivered, rejects, used, nrun, smplog>>
+                                     /\ UNCHANGED <<phase, budget, nsend, delivered, rejects, used, nrun, smplog, order>>
                [] s.a = "Tick" -> /\ Effect(p, Tick(st[p]), [a |-> "Tick", p |-> p], net[p])
-                                  /\ UNCHANGED <<phase, budget, nt, nsend, delivered, accepted, rejects, used, nrun, smplog>>
+                                  /\ UNCHANGED <<phase, budget, nt, nsend, delivered, accepted, rejects, used, nrun, smplog, order>>
                [] s.a = "End" -> /\ Effect(p, End(st[p]), [a |-> "End", p |-> p], net[p])
-                                 /\ UNCHANGED <<phase, budget, nt, nsend, delivered, accepted, rejects, used, nrun, smplog>>
+                                 /\ UNCHANGED <<phase, budget, nt, nsend, delivered, accepted, rejects, used, nrun, smplog, order>>
                [] s.a = "Err" -> \* the peer's client sends an OTR error message to p
                                  /\ net' = [net EXCEPT ![p] = Append(@, ErrorMsg)]
                                  /\ path' = IF Export THEN Append(path, [a |-> "Err", p |-> p]) ELSE path
-                                 /\ UNCHANGED <<st, nx, nt, nsend, phase, budget, delivered, accepted, rejects, evlog, used, disclosedEver, leaks, txlog, nrun, smplog, ksess>>
+                                 /\ UNCHANGED <<st, nx, nt, nsend, phase, budget, delivered, accepted, rejects, evlog, used, disclosedEver, leaks, txlog, nrun, smplog, ksess, order>>
                [] s.a = "Deliver" -> /\ net[p] # <<>>
                                      /\ DeliverMsg(p, Head(net[p]), Tail(net[p]), 0, "Deliver")
                                      /\ UNCHANGED <<phase, budget>>
      ELSE IF PreludeDrain /\ net["B"] # <<>> THEN Deliver("B") /\ pc' = pc
      ELSE IF PreludeDrain /\ net["A"] # <<>> THEN Deliver("A") /\ pc' = pc
      ELSE /\ phase' = "free"
-          /\ UNCHANGED <<st, net, nx, nt, nsend, pc, budget, delivered, accepted, rejects, evlog, used, disclosedEver, leaks, txlog, nrun, smplog, ksess, path>>
+          /\ UNCHANGED <<st, net, nx, nt, nsend, pc, budget, delivered, accepted, rejects, evlog, used, disclosedEver, leaks, txlog, nrun, smplog, ksess, path, order>>
 
 \* "bag" network: the attacker picks any message in flight, may duplicate or drop
 DeliverAny(p) ==
@@ -218,7 +223,7 @@ Drop(p) ==
   /\ net' = [net EXCEPT ![p] = Tail(@)]
   /\ budget' = [budget EXCEPT !.drop = @ - 1]
   /\ path' = IF Export THEN Append(path, [a |-> "Drop", p |-> p]) ELSE path
-  /\ UNCHANGED <<st, nx, nt, nsend, pc, phase, delivered, accepted, rejects, evlog, used, disclosedEver, leaks, txlog, nrun, smplog, ksess>>
+  /\ UNCHANGED <<st, nx, nt, nsend, pc, phase, delivered, accepted, rejects, evlog, used, disclosedEver, leaks, txlog, nrun, smplog, ksess, order>>
 
 FreeDeliver(p) == phase = "free" /\ NetMode = "fifo" /\ Deliver(p) /\ pc' = pc
 
@@ -228,20 +233,20 @@ UserSMPStart(p) ==
         /\ Effect(p, SMPStart(st[p], sec, q, nrun + 1), [a |-> "SMPStart", p |-> p, s |-> sec, q |-> q], net[p])
   /\ nrun' = nrun + 1
   /\ budget' = [budget EXCEPT !.smpstart = @ - 1]
-  /\ UNCHANGED <<phase, pc, nt, nsend, delivered, accepted, rejects, used, smplog>>
+  /\ UNCHANGED <<phase, pc, nt, nsend, delivered, accepted, rejects, used, smplog, order>>
 
 UserSMPAnswer(p) ==
   /\ phase = "free" /\ budget.smpanswer > 0 /\ Len(net[Other(p)]) < MaxFlight
   /\ \E sec \in Secrets :
         Effect(p, SMPAnswer(st[p], sec), [a |-> "SMPAnswer", p |-> p, s |-> sec], net[p])
   /\ budget' = [budget EXCEPT !.smpanswer = @ - 1]
-  /\ UNCHANGED <<phase, pc, nt, nsend, delivered, accepted, rejects, used, nrun, smplog>>
+  /\ UNCHANGED <<phase, pc, nt, nsend, delivered, accepted, rejects, used, nrun, smplog, order>>
 
 UserSMPAbort(p) ==
   /\ phase = "free" /\ budget.smpabort > 0 /\ st[p].ms = "enc" /\ Len(net[Other(p)]) < MaxFlight
   /\ Effect(p, SMPAbort(st[p]), [a |-> "SMPAbort", p |-> p], net[p])
   /\ budget' = [budget EXCEPT !.smpabort = @ - 1]
-  /\ UNCHANGED <<phase, pc, nt, nsend, delivered, accepted, rejects, used, nrun, smplog>>
+  /\ UNCHANGED <<phase, pc, nt, nsend, delivered, accepted, rejects, used, nrun, smplog, order>>
 
 \* an offer with an arbitrary version list, made by anybody (offers are not authenticated)
 InjectOffer(p) ==
@@ -252,7 +257,7 @@ InjectOffer(p) ==
                                                ELSE [t |-> "Q", vs |-> SetToSeq(vs)])]
        /\ path' = IF Export THEN Append(path, [a |-> "Offer", p |-> p, vs |-> SetToSeq(vs), tagged |-> tagged]) ELSE path
   /\ budget' = [budget EXCEPT !.offer = @ - 1]
-  /\ UNCHANGED <<st, nx, nt, nsend, pc, phase, delivered, accepted, rejects, evlog, used, disclosedEver, leaks, txlog, nrun, smplog, ksess>>
+  /\ UNCHANGED <<st, nx, nt, nsend, pc, phase, delivered, accepted, rejects, evlog, used, disclosedEver, leaks, txlog, nrun, smplog, ksess, order>>
 
 Step ==
   \/ PreludeStep
@@ -263,12 +268,12 @@ Step ==
        \/ UserSMPStart(p) \/ UserSMPAnswer(p) \/ UserSMPAbort(p)
        \/ DeliverAny(p) \/ Duplicate(p) \/ Drop(p)
 
-Next == Step /\ hiA' = hiA
+Next == Step
 
 Spec == Init /\ [][Next]_vars
 
 \* Liveness needs fair deliveries only (users may stop at any time)
-FairSpec == Spec /\ WF_vars((\E p \in Parties : FreeDeliver(p)) /\ hiA' = hiA) /\ WF_vars(PreludeStep /\ hiA' = hiA)
+FairSpec == Spec /\ WF_vars(\E p \in Parties : FreeDeliver(p)) /\ WF_vars(PreludeStep)
 
 \* schedule export: one line per generated transition
 Emit == Export => PrintT(<<"SCHED", ToJson(path')>>)
